@@ -38,8 +38,11 @@ def _d8_outside(r):
 def match_d8(payload):
     """tzstr/tzrange M-rule whose time of day expressed in standard time is outside [0, 86400)."""
     inp = payload.get("input") or {}
+    r = inp.get("rule")
+    ds = r.get("dst") if isinstance(r, dict) else None
     return (payload.get("kind", "").startswith("implementation differs from the POSIX specification")
-            and inp.get("zone_kind") in ("tzstr", "tzrange") and _d8_outside(inp.get("rule")))
+            and inp.get("zone_kind") in ("tzstr", "tzrange") and _d8_outside(r)
+            and bool(ds) and ds["off"] > r["off"])
 
 
 def match_gmt_none(payload):
@@ -50,7 +53,17 @@ def match_gmt_none(payload):
             and not inp.get("posix_offset"))
 
 
-MATCHERS = {"c08_d8_rule_time_outside_standard_day": match_d8,
+def match_negative_dst(payload):
+    """tzstr/tzrange with a daylight offset smaller than the standard offset (negative saving)."""
+    inp = payload.get("input") or {}
+    r = inp.get("rule")
+    ds = r.get("dst") if isinstance(r, dict) else None
+    return (payload.get("kind", "").startswith("implementation differs from the POSIX specification")
+            and inp.get("zone_kind") in ("tzstr", "tzrange") and bool(ds) and ds["off"] < r["off"])
+
+
+MATCHERS = {"c08_negative_dst_saving": match_negative_dst,
+            "c08_d8_rule_time_outside_standard_day": match_d8,
             "c08_gmt_utc_without_offset_typeerror": match_gmt_none}
 
 
@@ -464,6 +477,20 @@ def check_parser(verdict, st, o, strings):
             st.model_diff += 1
             verdict.violation({"kind": "correspondence: tzstr(s) construction differs from the model",
                                "input": {"s": s}, "impl": zi, "model": zm}, concrete=False)
+        elif z is not None and z.hasdst:
+            # yearly transitions of every accepted string (also the odd ones: week 0, month 13, J0 ...)
+            for y in (2023, 2024):
+                try:
+                    tr = z.transitions(y)
+                    it = [0, P.secs_of(tr[0]), P.secs_of(tr[1])]
+                except Exception as ex:
+                    it = [P.exc_code(ex)]
+                mt = o.call(P.E_TRANS, [0] + P.estr(s) + [y])
+                st.evals += 1
+                if it != mt:
+                    st.model_diff += 1
+                    verdict.violation({"kind": "correspondence: transitions differ from the model",
+                                       "input": {"s": s, "year": y}, "impl": it, "model": mt}, concrete=False)
 
 
 def malformed_of(canon, rng):
@@ -552,7 +579,7 @@ def main():
         o = C.Oracle(AREA)
         rng = C.rng("C08")
         years = YEARS_Q if tier == "quick" else YEARS_T
-        n_rules = 260 if tier == "quick" else 6000
+        n_rules = 200 if tier == "quick" else 1500
         # ---- regression corpus first
         cpath = os.path.join(C.VERIF, "corpus", "regressions", "C08.jsonl")
         corpus = []
@@ -564,9 +591,10 @@ def main():
         check_parser(verdict, st, o, [e["s"] for e in corpus if "s" in e])
         # ---- rule stream
         rules = [P.gen_rule(rng) for _ in range(n_rules)]
+        t_stream = time.time()
         for k, r in enumerate(rules):
             check_rule(verdict, st, o, r, rng, years, k, tier, do_local=(k % 3 == 0))
-            if tier == "quick" and time.time() - t0 > 140:
+            if tier == "quick" and time.time() - t_stream > 100:
                 st.bump("rule_stream_cut_by_budget_at", k)
                 break
         # ---- small-scope exhaustive: every Mm.w.d start with a fixed end, transitions of 3 years
@@ -602,22 +630,30 @@ def main():
         st.bump("small_scope_M_rules", ex_n)
         # ---- parser: canonical strings, variants, mutations, token soup, deprecated format
         strings = []
-        for k, r in enumerate(rules[:(150 if tier == "quick" else 3000)]):
+        for k, r in enumerate(rules[:(150 if tier == "quick" else 1500)]):
             canon = "".join(chr(c) for c in o.call(P.E_RENDER, P.enc_posix(r)))
             strings.append(canon)
             strings.append(P.render_variant(r, rng))
             strings.append(mutate(canon, rng))
             strings.append(mutate(mutate(canon, rng), rng))
-        strings += [soup(rng) for _ in range(1500 if tier == "quick" else 40000)]
+        strings += [soup(rng) for _ in range(1500 if tier == "quick" else 20000)]
         strings += DEPRECATED + ["", ",", "EST", "EST5", "EST5EDT", "EST5EDT,", "UTC", "GMT", "GMT+3", "UTC-3",
                                  "UTC+3", "GMT-3", "EST5EDT4", "EST5:30EDT", "EST+5EDT", "EST-5EDT",
                                  "EST5EDT,J0/0,J1", "EST5EDT,M13.1.0,M11.1.0", "EST5EDT,M3.0.0,M11.1.0",
                                  "EST5EDT,J366,J1", "EST5EDT,366,1", "EST5EDT,365,1", "EST5EDT,M3.2.0/100,M11.1.0",
                                  "EST5EDT;M3.2.0;M11.1.0", "EST5EDT,M3-2-0,M11-1-0", "<+03>-3"]
+        # small scope: 'EST5EDT,' followed by every sequence of up to 3 (quick) / 4 (thorough) tokens
+        small_alpha = ["M", "J", "3", "10", ".", "/", ",", ":", "-", "2"]
+        import itertools
+        depth = 3 if tier == "quick" else 4
+        for k in range(1, depth + 1):
+            for combo in itertools.product(small_alpha, repeat=k):
+                strings.append("EST5EDT," + "".join(combo))
+        st.bump("small_scope_rule_part_strings", sum(len(small_alpha) ** k for k in range(1, depth + 1)))
         check_parser(verdict, st, o, strings)
         # ---- property-level streams
         n_mal = 0
-        for r in rules[:(120 if tier == "quick" else 2500)]:
+        for r in rules[:(120 if tier == "quick" else 1500)]:
             if r["dst"] is None:
                 continue
             canon = "".join(chr(c) for c in o.call(P.E_RENDER, P.enc_posix(r)))
@@ -663,6 +699,7 @@ def main():
             print("DEBUG", len(v), kk)
             for pl in v[:int(os.environ.get("VERIF_DEBUG"))]:
                 print("    ", json.dumps(pl, default=str)[:1500])
+    verdict.violations.sort(key=lambda pc: 0 if pc[1] else 1)   # concrete failing inputs first
     rc = verdict.finish()
     cov = {
         "evaluations": st.evals,
